@@ -123,6 +123,7 @@ pub fn handle(mode: &str, j: &J) -> J {
             }
             json!({"n": words.len(), "bits": bits})
         }
+        "json" => crate::sweep::json_case(j["text"].as_str().unwrap()),
         "int_sweep" => {
             let lo = j["lo"].as_i64().unwrap();
             let hi = j["hi"].as_i64().unwrap();
